@@ -66,4 +66,51 @@ def peekPresetOld (table : Option (List (Nat × Nat))) (addr : Nat) : Except Rai
   | some t => .ok (lookup t addr)
   | none => .error (.host 1)
 
+/-! ### `DataSegment.get_value_for_varptrstr`: the type byte of a VARPTR$-style operand in DRAW / PLAY strings -/
+
+/-- `values.SIZE_TO_TYPE` (2 INT, 3 STR, 4 SNG, 8 DBL); the type is represented by its size -/
+def sizeToType (size : Nat) : Option Nat :=
+  if size = 2 ∨ size = 3 ∨ size = 4 ∨ size = 8 then some size else none
+
+/-- repaired: `if size not in SIZE_TO_TYPE: raise IFC` before anything else -/
+def varptrType (size : Nat) : Except Raised Nat :=
+  match sizeToType size with
+  | some t => .ok t
+  | none => .error (.basic PcbV.Gen.E.ifc)
+
+/-- before the repair: `SIZE_TO_TYPE[size]` raises KeyError for a detached pointer with another type byte -/
+def varptrTypeOld (size : Nat) : Except Raised Nat :=
+  match sizeToType size with
+  | some t => .ok t
+  | none => .error (.host 2)
+
+/-! ### graphics PUT: `PackedSpriteBuilder.unpack` of an array buffer of `len` bytes -/
+
+/-- bytes per row for a size record `rowBits` at `bpp` bits per pixel -/
+def rowBytes (bpp rowBits : Nat) : Nat := ((rowBits / bpp) * bpp + 7) / 8
+
+/-- repaired: number of packed bytes taken from the array behind the 4-byte size record; the array must hold the
+    record and the whole sprite, else `ValueError` which `Graphics.put_` reports as Illegal function call -/
+def spriteBytes (bpp len rowBits height : Nat) : Except Raised Nat :=
+  if len < 4 then .error (.basic PcbV.Gen.E.ifc)
+  else if len < 4 + rowBytes bpp rowBits * height then .error (.basic PcbV.Gen.E.ifc)
+  else .ok (rowBytes bpp rowBits * height)
+
+/-- before the repair: `struct.unpack('<HH', array[0:4])` on a shorter buffer raises struct.error; a buffer shorter
+    than the sprite gave a clamped slice (rows of unequal length: AssertionError in ByteMatrix) -/
+def spriteBytesOld (bpp len rowBits height : Nat) : Except Raised Nat :=
+  if len < 4 then .error (.host 3)
+  else .ok (min (len - 4) (rowBytes bpp rowBits * height))
+
+/-! ### POINT(x, y) under a viewport with origin (x0, y0) (0, 0 for VIEW SCREEN) on a w x h pixel buffer -/
+
+/-- repaired: the pixel is read only if its absolute position is on the screen; `none` is the value -1 -/
+def pointIndex (w h x0 y0 : Nat) (x y : Int) : Option (Int × Int) :=
+  if x < 0 ∨ y < 0 then none
+  else if x + x0 < w ∧ y + y0 < h then some (x + x0, y + y0) else none
+
+/-- before the repair: the bounds were tested on the viewport coordinates -/
+def pointIndexOld (w h x0 y0 : Nat) (x y : Int) : Option (Int × Int) :=
+  if x < 0 ∨ x ≥ w ∨ y < 0 ∨ y ≥ h then none else some (x + x0, y + y0)
+
 end PcbV.Funnel
